@@ -10,8 +10,9 @@ namespace Hpx.Bmoc.Builder
 
 /-! ## 1. `sort_unstable(); dedup()`
 
-The membership / `≤`-sortedness lemmas are the ones of `Lemmas/PolyLemmas.lean` (namespace `Hpx.Sph`), restated here
-because that module pulls in the whole spherical-geometry model; the strictness lemma is new. -/
+The membership / `≤`-sortedness lemmas are those of `Lemmas/PolyLemmas.lean` (namespace `Hpx.Sph`), restated here with the
+same proofs: that module had no compiled `.olean` when this file was written (so it could not be imported) and it pulls
+in the whole spherical-geometry model.  The strictness lemma `dedupAdj_strict` is new. -/
 
 theorem mem_insertSorted (x y : Nat) (l : List Nat) : y ∈ insertSorted x l ↔ y = x ∨ y ∈ l := by
   induction l with
@@ -668,5 +669,38 @@ theorem fixed_builder_sem (hor : OrSpec) (depth : Nat) (flag : Bool) (hd : depth
       obtain ⟨f1, f2⟩ := final s inv hb
       refine ⟨s.bmoc, rfl, ?_, f2⟩
       exact ⟨fun h => absurd h f1, fun h => absurd h hpsne⟩
+
+/-! ## examples (concrete push sequences; `(hash, drainNow)`) -/
+
+-- `sort; dedup`
+example : dedupAdj (sortNat [7, 5, 5, 6, 5]) = [5, 6, 7] := by decide
+-- run lengths: `16` may start a depth-0 cell (16 = 4^2) but only 5 consecutive hashes follow
+example : largestLowerCellSequenceLen 2 16 [16, 17, 18, 19, 20] = 5 := by decide
+example : largestLowerCellSequenceLen 2 17 [17, 18, 19, 20] = 1 := by decide
+-- both arms of the `next_power_of_two` trick: a run of 4 gives one cell of depth 1, a run of 5..7 gives `dd = 0`
+-- (`tz(8) >> 2`: single cells, nothing is lost), a run of 16 gives one cell of depth 0
+example : (buffToBmoc 2 true [16, 17, 18, 19]).cells = [⟨1, 4, true⟩] := by decide
+example : (buffToBmoc 2 true [16, 17, 18, 19, 20, 21]).cells =
+    [⟨2, 16, true⟩, ⟨2, 17, true⟩, ⟨2, 18, true⟩, ⟨2, 19, true⟩, ⟨2, 20, true⟩, ⟨2, 21, true⟩] := by decide
+example : (runBuilder 2 true ((List.range 16).map (fun k => (32 + k, false)))).map (·.map (·.cells)) =
+    some (some [⟨0, 2, true⟩]) := by decide
+-- nothing pushed: `None`
+example : runBuilder 2 true [] = some none := by decide
+-- unsorted pushes with repetitions, no intermediate drain
+example : (runBuilder 2 true [(7, false), (5, false), (5, false), (6, false), (5, false)]).map (·.map (·.cells)) =
+    some (some [⟨2, 5, true⟩, ⟨2, 6, true⟩, ⟨2, 7, true⟩]) := by decide
+-- drains in the middle (capacity 2): the partial results are combined by `or` (and packed)
+example : (runBuilder 2 true [(16, false), (17, true), (19, false), (18, true)]).map (·.map (·.cells)) =
+    some (some [⟨1, 4, true⟩]) := by decide +kernel
+example : (runBuilder 2 false [(16, false), (17, true), (19, false), (18, true), (3, false)]).map (·.map (·.cells)) =
+    some (some [⟨2, 3, false⟩, ⟨2, 16, false⟩, ⟨2, 17, false⟩, ⟨2, 18, false⟩, ⟨2, 19, false⟩]) := by decide +kernel
+-- the hypotheses of `fixed_builder_sem` / `buffToBmoc_sem` are satisfiable by these values
+example : ∀ p ∈ [(16, false), (17, true), (19, false), (18, true), (3, false)], p.1 < 12 * 4 ^ 2 := by decide
+example : [3, 16, 17, 18, 19].Pairwise (· < ·) ∧ ∀ x ∈ [3, 16, 17, 18, 19], x < 12 * 4 ^ 2 := by decide
+
+#print axioms sort_dedup_spec
+#print axioms seqLen_spec
+#print axioms buffToBmoc_sem
+#print axioms fixed_builder_sem
 
 end Hpx.Bmoc.Builder
